@@ -224,12 +224,14 @@ theorem detachChildren_forest {s : Seg} (hF : Forest s) {a : Nat} (ha : Real s a
     ((detachChildren s a (s.slots.size + 1)).get a).parent = (s.get a).parent ∧
     (detachChildren s a (s.slots.size + 1)).free = s.free ∧
     (∀ j, ((detachChildren s a (s.slots.size + 1)).get j).copied = (s.get j).copied) ∧
-    (∀ j, ¬ Real s j → ((detachChildren s a (s.slots.size + 1)).get j).parent = (s.get j).parent) := by
+    (∀ j, ¬ Real s j → ((detachChildren s a (s.slots.size + 1)).get j).parent = (s.get j).parent) ∧
+    (∀ j, ((detachChildren s a (s.slots.size + 1)).get j).parent = (s.get j).parent ∨
+      ((detachChildren s a (s.slots.size + 1)).get j).parent = none) := by
   obtain ⟨l, hk⟩ := hF.kids a ha
   have hal : a ∉ l := fun hh => hF.not_self ha (hk.mem a hh).1
   have hd := detachChildren_spec l (s.slots.size + 1) s a hk.local (fun j hj => (hk.mem j hj).1) hal (by have := hk.length_le; omega)
   exact ⟨forest_of_detachedAll hF ha hk hd, hd.chiA, by rw [hd.par a, if_neg hal], hd.free, hd.cop,
-    fun j hj => by rw [hd.par j, if_neg (fun hh => hj (hk.mem j hh).2)]⟩
+    fun j hj => by rw [hd.par j, if_neg (fun hh => hj (hk.mem j hh).2)], fun j => by rw [hd.par j]; split; exact .inr rfl; exact .inl rfl⟩
 
 /-! ## `child` followed by `attachTo` -/
 
@@ -355,7 +357,8 @@ theorem attach_forest {s : Seg} (hF : Forest s) {i other : Nat} (ws : Bool) (hi 
     (his : i < s.slots.size) (hos : other < s.slots.size) (hif : i ∉ s.free) (hof : other ∉ s.free) :
     Forest (s.attach i other ws) ∧ (s.attach i other ws).free = s.free ∧
       (∀ j, ((s.attach i other ws).get j).copied = (s.get j).copied) ∧
-      (∀ j, j ≠ i → ((s.attach i other ws).get j).parent = (s.get j).parent) := by
+      (∀ j, j ≠ i → ((s.attach i other ws).get j).parent = (s.get j).parent) ∧
+      (((s.attach i other ws).get i).parent = some other ∨ ((s.attach i other ws).get i).parent = none) := by
   obtain ⟨hF1, hp1, hr1, hfree1, hcop1, _, hpar1⟩ := unparent_forest hF hi
   have hsz1 : (s.unparent i).slots.size = s.slots.size := (GrVerif.Action.unparent_same s i).size
   unfold Seg.attach
@@ -384,15 +387,17 @@ theorem attach_forest {s : Seg} (hF : Forest s) {i other : Nat} (ws : Bool) (hi 
     split
     · have ts := TreeSame.upd ((child (s.unparent i) other i).2.upd i fun sl => sl.setParent (some other)) i
         (fun sl => { sl with withX := sl.advX, withY := 0 }) (fun _ => ⟨rfl, rfl, rfl, rfl⟩)
-      refine ⟨forest_congr ts hF2, by rw [ts.free, hatt.free, hfree1], fun j => ?_, fun j hj => ?_⟩
+      refine ⟨forest_congr ts hF2, by rw [ts.free, hatt.free, hfree1], fun j => ?_, fun j hj => ?_, .inl ?_⟩
       · rw [(ts.fld j).2.2.2, hatt.cop j, hcop1 j]
       · rw [(ts.fld j).1, hatt.par j, if_neg hj, hpar1 j hj]
+      · rw [(ts.fld i).1, hatt.par i, if_pos rfl]
     · have ts := TreeSame.upd ((child (s.unparent i) other i).2.upd i fun sl => sl.setParent (some other)) i
         (fun sl => { sl with attX := (((child (s.unparent i) other i).2.upd i fun sl => sl.setParent (some other)).get other).advX, attY := 0 })
         (fun _ => ⟨rfl, rfl, rfl, rfl⟩)
-      refine ⟨forest_congr ts hF2, by rw [ts.free, hatt.free, hfree1], fun j => ?_, fun j hj => ?_⟩
+      refine ⟨forest_congr ts hF2, by rw [ts.free, hatt.free, hfree1], fun j => ?_, fun j hj => ?_, .inl ?_⟩
       · rw [(ts.fld j).2.2.2, hatt.cop j, hcop1 j]
       · rw [(ts.fld j).1, hatt.par j, if_neg hj, hpar1 j hj]
-  · exact ⟨hF1, hfree1, hcop1, hpar1⟩
+      · rw [(ts.fld i).1, hatt.par i, if_pos rfl]
+  · exact ⟨hF1, hfree1, hcop1, hpar1, .inr hp1⟩
 
 end GrVerif.Seg
